@@ -333,7 +333,7 @@ theorem runProg_np : ∀ (fuel : Nat) (s : St) (prog : Prog), NPres s (runProg f
         · split
           · exact (NPres.of_core (by simp) : NPres s (updCur s _)).trans (finishH_np _ _)
           · refine NPres.trans ?_ (ih _ _)
-            exact NPres.of_core (by simp)
+            exact NPres.of_core (by split <;> simp)
       · -- write
         split
         · exact ih _ _
@@ -369,7 +369,9 @@ theorem handlerStart_np (fuel : Nat) (s : St) (m : QMsg) : NPres s (handlerStart
         · exact (h0.trans (NPres.of_core (by simp))).trans (finishH_np _ _)
         · refine (h0.trans ?_).trans (runProg_np _ _ _)
           exact NPres.of_waiter rfl
-      · exact h0.trans (finishFresh_np _ _ _ _)
+      · split
+        · exact h0.trans (finishH_np _ _)
+        · exact h0.trans (finishFresh_np _ _ _ _)
     · refine (h0.trans ?_).trans (runProg_np _ _ _)
       exact NPres.of_waiter rfl
 
@@ -449,6 +451,10 @@ theorem startRun_winv : ∀ (fuel : Nat) (s : St) (k : SCont),
       | cancelled =>
         try simp only []
         exact WInv.of_np (fun hp => hn ((forceClose_step0 { s with hpc := .idle }).np.2 hp))
+      | crashed =>
+        try simp only []
+        have := (forceClose_step0 { s with hpc := .idle }).keep hn rfl
+        exact ih _ _ this.1 (fun _ => this.2)
       | resp ka reset =>
         try simp only []
         split
